@@ -29,8 +29,10 @@ def errnames_for(kind: str, tier: str):
         return ['EACCES', 'EIO'] if tier == 'thorough' else ['EACCES']
     if kind in ('write', 'flush', 'close-w', 'truncate'):
         return ['ENOSPC', 'EIO'] if tier == 'thorough' else ['ENOSPC']
-    if kind in ('open-r', 'open-w'):
+    if kind == 'open-w':
         return ['EIO', 'EACCES'] if tier == 'thorough' else ['EIO']
+    if kind == 'open-r':
+        return ['EIO']
     if kind == 'read':  # a lock violation while reading (the library handles PermissionError in some loops) or a media error
         return ['EACCES', 'EIO'] if tier == 'thorough' else ['EACCES']
     return ['EIO']
@@ -210,6 +212,15 @@ def variant_cases(ctx, prop, mode, default_fsync_only=False):
     vs = variants.variants(ctx.tier, default_fsync_only=default_fsync_only)
     if mode == 'fault' and ctx.tier == 'quick':
         vs = [v for v in vs if v['name'].startswith(FAULT_QUICK_VARIANTS)]
+    elif mode == 'fault':
+        # every fault costs two forked children and two oracle passes: at most two pre-states per operation variant in thorough
+        seen, kept = {}, []
+        for v in vs:
+            key = v['name'].split('@')[0]
+            seen[key] = seen.get(key, 0) + 1
+            if seen[key] <= 2:
+                kept.append(v)
+        vs = kept
     return [{'prop': prop, 'variant': v, 'mode': mode, 'tier': ctx.tier, 'name': v['name'], 'timeout': 2400} for v in vs]
 
 
